@@ -1,4 +1,5 @@
 import UtilModel.Routine.Props
+import UtilModel.Routine.Transfer
 open UtilModel UtilModel.Routine
 #print axioms UtilModel.accepts_sound
 #print axioms UtilModel.Chain.chain_one_running
@@ -10,3 +11,7 @@ open UtilModel UtilModel.Routine
 #print axioms UtilModel.Routine.waitReturn_after_all
 #print axioms UtilModel.Routine.C04a_obs
 #print axioms UtilModel.Routine.C04_obs
+#print axioms UtilModel.Routine.C04a_accepted
+#print axioms UtilModel.Routine.C04_accepted
+#print axioms UtilModel.Routine.complete_routine
+#print axioms UtilModel.Routine.reject_sound_routine
